@@ -121,7 +121,7 @@ def refine(job, fp, out, err):
     u, mode = job.unit, job.opts.get('mode')
     if fp in PRECONDITION_ASSERTS.get((u, mode), ()):
         return None
-    if u == 'topology' and fp.startswith('assert:topology_') and mode in ('scenes', 'layout'):
+    if u in ('topology', 'topology.cycle') and fp.startswith('assert:topology_') and mode in ('scenes', 'layout'):
         # libtopology's own end-of-solve self checks (assertNoSegmentRectIntersection, assertConvexBend, assertFeasible ...) on the
         # lattice-aligned scene families / random layouts: the subject of C13, whose check runs the same families with its classifiers
         # (lattice_corridor_tie, rare_segment_through_node, lattice_degenerate_residual) and rate limits; here only counted and bounded
@@ -388,6 +388,56 @@ def unit_topology(rng, n):
     return jobs
 
 
+def topo_cycle_case(rng, mode):
+    """members of the convex clusters in an upper band, the other nodes in a lower band (so that no non-member starts inside a hull),
+    every node in its own x slot (no initial overlap); random sizes and positions; layout edges among all nodes"""
+    ncl = 1 if rng.chance(2, 3) else 2
+    lines, clusters, nid, x = [], [], 0, 0
+    for c in range(ncl):
+        members = []
+        for _ in range(rng.range(2, 4) if mode != 'D' else rng.range(2, 5)):
+            w, h = rng.range(20, 60), rng.range(20, 50)
+            x0, y0 = x + rng.range(0, 30), rng.range(0, 90)
+            lines.append('r %d %d %d %d' % (x0, x0 + w, y0, y0 + h))
+            members.append(nid)
+            nid += 1
+            x += 100
+        clusters.append(members)
+        x += 60
+    x = rng.range(0, 80)
+    for _ in range(rng.range(0, 3)):
+        w, h = rng.range(20, 60), rng.range(20, 50)
+        lines.append('r %d %d %d %d' % (x, x + w, 260 + rng.range(0, 60), 260 + 60 + h))
+        nid += 1
+        x += 100 + rng.range(0, 40)
+    edges = set()
+    for _ in range(rng.range(1, nid + 1)):
+        a, b = rng.below(nid), rng.below(nid)
+        if a != b and (b, a) not in edges:
+            edges.add((a, b))
+    lines += ['e %d %d' % e for e in sorted(edges)]
+    lines += ['c ' + ' '.join(str(m) for m in ms) for ms in clusters]
+    return 'mode %s %d\n' % (mode, rng.choice([5, 20])) + '\n'.join(lines) + '\n', {'nodes': nid, 'clusters': ncl}
+
+
+def unit_topology_cycle(rng, n):
+    """libtopology + libcola: life cycle of CYCLIC topology edges (cluster boundaries, last EdgePoint = first): (A) build and delete;
+    (B) run a ConstrainedFDLayout with them through ColaTopologyAddon, then delete; (C) the library builds them itself for
+    cola::ConvexCluster (setClusterHierarchy + setAvoidNodeOverlaps(true) + makeFeasible() + run()) and frees them in
+    freeAssociatedObjects(); (D) control with open edges.  harness/c15_topo_cycle.cpp, one process per scenario, leaks observed"""
+    exe = C.build_harness('c15_topo_cycle', TOPO_LIBS, FLAVOR)
+    jobs = []
+    demo = 'r 395 449 155 189\nr 309 363 155 189\nr 350 404 260 294\ne 0 2\ne 0 1\nc 0 1\n'
+    for m in 'ABCD':
+        jobs.append(Job('topology.cycle', 'fixed:%s' % m, exe, [], 'mode %s 20\n' % m + demo, {'mode': 'layout' if m in 'BC' else 'build', 'scenario': m}))
+    for k in range(n):
+        m = 'ABCD'[k % 4] if k % 8 < 4 else 'ABCC'[k % 4]
+        txt, o = topo_cycle_case(rng.fork(), m)
+        jobs.append(Job('topology.cycle', 'gen:%s#%d' % (m, k), exe, [], txt,
+                        {'mode': 'layout' if m in 'BC' else 'build', 'scenario': m, 'clusters': str(o['clusters'])}, timeout=300))
+    return jobs
+
+
 def unit_cola_paths(rng, n):
     """libcola: floyd_warshall / johnsons / dijkstra on every graph family of C17 (weighted and unweighted, self-loops, parallel
     edges, zero weights, disconnected), ConstrainedFDLayout distance matrices incl. non-positive lengths, PairingHeap op
@@ -443,6 +493,7 @@ UNITS = collections.OrderedDict([
     ('cola.nonoverlap', (unit_cola_nonoverlap, 150, 1200)),
     ('cola.paths', (unit_cola_paths, 100, 600)),
     ('topology', (unit_topology, 96, 600)),
+    ('topology.cycle', (unit_topology_cycle, 40, 400)),
     ('dialect.sep', (unit_dialect_sep, 60, 300)),
     ('dialect.peel', (unit_dialect_peel, 100, 600)),
     ('dialect.tree', (unit_dialect_tree, 100, 400)),
